@@ -162,7 +162,8 @@ func (s *xpoaSchedule) GetLocalLeader(timestamp int64, round int64, storage []by
 		return ""
 	}
 	_, pos, blockPos := s.minerScheduling(timestamp, len(localValidators))
-	if blockPos < 0 || blockPos > s.blockNum || pos >= int64(len(localValidators)) {
+	// the schedule starts at the epoch: a negative timestamp (integer division truncates toward zero) has no leader
+	if timestamp < 0 || blockPos < 0 || blockPos > s.blockNum || pos < 0 || pos >= int64(len(localValidators)) {
 		return ""
 	}
 	return localValidators[pos]
